@@ -148,7 +148,8 @@ def generate(rng, tier):
             cases.append(affine_case(g, elt, m, 0, 2.0 ** -8, True, "edge-n0"))
         for n in range(1, 4):
             cases.append(affine_case(g, elt, 0, n, 2.0 ** -8, True, "edge-m0"))
-    return cases
+    # spread heavy (6 x 6 complex) and light cases evenly over the model shards
+    return rng.fork("order").shuffle(cases)
 
 def case_from_json(j):
     elt = j["elt"]
